@@ -1229,6 +1229,20 @@ def replay(path):
             return 1
         print("no violation on this history")
         return 0
+    if obj.get("domain") == "unwind-lazy":
+        from . import unwind_check
+        import unwind_gen
+        h = unwind_gen.decode(obj["encoded"])
+        expect = [(e[0], (e[1], e[2]), e[3]) for e in obj["expect"]]
+        line = unwind_check.run_harness(common.build_harness(False), [h])[0]
+        v = unwind_check.lazy_after_fault_violation(h, expect, line)
+        print(json.dumps(dict(history=unwind_check.pretty_lazy(h), transcript=line, violation=v), indent=1))
+        common.cleanup_run_dir()
+        if v:
+            print("VIOLATION property=%s replay=%s" % (pid, path))
+            return 1
+        print("no violation on this history")
+        return 0
     if obj.get("domain") == "hibit":
         from . import hibit_check
         r = hibit_check.run_cases([obj["case"]])[0]
